@@ -262,6 +262,31 @@ def check(ctx):
                    site=f.loc(call))
     ctx.floor('C05.R4.pv-origin', n_pvc, 4, 'PV helper call sites')
 
+    # every activation of a recursive search function defines its own PV before any return: the parent
+    # appends the child's PV (info + 1) after the call, so a path that returns without touching the frame's
+    # PV would splice in moves left over from an unrelated line
+    from rules.common import sccs
+    comps = sccs(p, t_search)
+    n_pvd = 0
+    for fid in sorted(set().union(*comps) if comps else []):
+        f = p.funcs[fid]
+        pinfo = [q for q in f.params if q['name'] == 'info']
+        if not pinfo:
+            continue
+        own = set()
+        for n, cfid, nm in f.calls():
+            if nm in pv_helpers:
+                a = strip_casts(kids(n)[1])
+                if a.get('ref', {}).get('id') == pinfo[0]['id']:
+                    own.add(n['i'])
+        c = f.cfg
+        path = c.path_avoiding((c.entry, -1), own, 'exit') if own else [c.entry]
+        n_pvd += 1
+        ctx.ob('C05.R4.pv-defined', short(f.name), path is None,
+               'every path through %s (including early returns for draws, stops and cut-offs) first (re)defines this frame\'s PV' % short(f.name),
+               site=f.loc(), detail={'path_blocks_without_pv_write': path})
+    ctx.floor('C05.R4.pv-defined', n_pvd, 2, 'recursive search functions with a frame')
+
     # ---- R5 ordering only permutes ------------------------------------------------------
     om = p.fn('engine::MoveOrderer::order_moves')
     ctx.analysed(om)
